@@ -1,1 +1,189 @@
-/-! # C12 — property theorems (not built yet) -/
+import PysphVerif.Lemmas.SchemeNeeds
+import PysphVerif.Gen.Schemes
+/-!
+# C12 — every shipped scheme yields a complete, generatable simulation
+
+`Gen/Schemes.lean` is re-extracted from the current source on every run: for
+every `Scheme` class that provides `setup_properties`, every combination of
+its options, every supported dimension, with and without solid arrays,
+`clean=True/False`, the translator RUNS `configure`, `configure_solver`,
+`setup_properties`, `get_equations` on plain particle arrays and records the
+outcome.  The quantifier of the property is that finite table, so the
+theorems below are proofs for the tree they were generated from:
+
+* general part (all tables, all bodies): the Boolean check is sound and
+  complete for the specification `Complete`; the precomputed-symbol closure
+  is exactly the reachable set; every legal option combination is a grid
+  point; completeness is monotone in the arrays' property sets;
+* table part: every body of the generated table passes the check
+  (`decide +kernel` over the WHOLE table), lifted to every grid point.
+-/
+namespace PysphVerif.C12
+open PysphVerif.SchemeNeeds PysphVerif.Gen.Schemes
+
+/-! ## general theorems (any table) -/
+
+/-- the Boolean check decides the specification (`complete_iff_check`): sound -/
+theorem check_sound (t : List PreSym) (kinds : List EqKind) (sk : List StepKind) (b : Body) :
+    checkBody t kinds sk b = true → Complete t kinds sk b :=
+  complete_of_check t kinds sk b
+
+/-- … and complete, given that the closure loops terminated, which the check tests -/
+theorem check_complete (t : List PreSym) (kinds : List EqKind) (sk : List StepKind) (b : Body)
+    (hcl : ∀ e ∈ b.eqs, ∀ k, kinds[e.kind]? = some k → closedB t (closure t k.loopPre) = true) :
+    Complete t kinds sk b → checkBody t kinds sk b = true :=
+  check_of_complete t kinds sk b hcl
+
+/-- `Group._setup_precomputed`, as transcribed, computes exactly the symbols
+reachable from the loop's arguments through the code blocks -/
+theorem closure_is_reachable_set (t : List PreSym) (m0 : Mask)
+    (hcl : closedB t (closure t m0) = true) (i : Nat) :
+    (closure t m0).testBit i = true ↔ Reach t m0 i :=
+  closure_iff_reach t m0 hcl i
+
+/-- what `Group([eq]).get_array_names()` returns (plus the `dst.` reads) is
+exactly what the specification demands of the destination -/
+theorem needsD_exact (t : List PreSym) (k : EqKind)
+    (hcl : closedB t (closure t k.loopPre) = true) (p : Nat) :
+    (needsD t k ||| k.implicitD).testBit p = true ↔ NeedsD t k p :=
+  ⟨spec_of_needsD t k, needsD_of_spec t k hcl⟩
+
+theorem needsS_exact (t : List PreSym) (k : EqKind)
+    (hcl : closedB t (closure t k.loopPre) = true) (p : Nat) :
+    (needsS t k).testBit p = true ↔ NeedsS t k p :=
+  ⟨spec_of_needsS t k, needsS_of_spec t k hcl⟩
+
+/-- every legal choice of one value per axis is a point of the grid -/
+theorem every_combination_is_a_grid_point (g : SchemeGrid) (ds : List Nat)
+    (h : ValidDigits (radices g) ds) : flatIndex (radices g) ds 0 < gridSize g :=
+  flatIndex_lt g ds h
+
+/-- more properties never hurt: if every array of `b'` has at least the
+properties of the corresponding array of `b` (same equations, same steppers),
+completeness carries over — e.g. from `clean=True` to `clean=False` -/
+theorem complete_mono (t : List PreSym) (kinds : List EqKind) (sk : List StepKind) (b b' : Body)
+    (heq : b'.eqs = b.eqs) (hst : b'.steppers = b.steppers)
+    (hlen : b.arrays.length ≤ b'.arrays.length)
+    (hsup : ∀ a p, HasProp b a p → HasProp b' a p)
+    (h : Complete t kinds sk b) : Complete t kinds sk b' := by
+  have hia : ∀ a, IsArray b a → IsArray b' a := fun a ha => Nat.lt_of_lt_of_le ha hlen
+  constructor
+  · intro e he
+    rw [heq] at he
+    obtain ⟨k, hk, hd, hp, hs⟩ := h.1 e he
+    refine ⟨k, hk, hia _ hd, fun p hn => hsup _ _ (hp p hn), ?_⟩
+    intro srcs hsrc s hsm
+    obtain ⟨h1, h2⟩ := hs srcs hsrc s hsm
+    exact ⟨hia _ h1, fun p hn => hsup _ _ (h2 p hn)⟩
+  · intro st hstm
+    rw [hst] at hstm
+    obtain ⟨k, hk, ha, hp⟩ := h.2 st hstm
+    exact ⟨k, hk, hia _ ha, fun p hn => hsup _ _ (hp p hn)⟩
+
+/-- what the real checker accepts has all explicit and precomputed-symbol
+arrays of the destination (it uses the strict-subset test, which is stronger) -/
+theorem real_checker_covers_dest (t : List PreSym) (kinds : List EqKind) (b : Body) (e : EqInst)
+    (h : acceptsEq t kinds b e = true) :
+    ∃ k da, kinds[e.kind]? = some k ∧ b.arrays[e.dest]? = some da ∧
+      ∀ p, (needsD t k).testBit p = true → da.2.testBit p = true := by
+  obtain ⟨k, da, hk, hda, hsub⟩ := acceptsEq_subset t kinds b e h
+  exact ⟨k, da, hk, hda, fun p hp => subsetB_testBit hsub hp⟩
+
+/-! ## the generated table (kernel evaluation over the whole table) -/
+
+/-- every distinct outcome of running a configuration passes the completeness check -/
+theorem bodies_checked : bodies.all (checkBody preTable eqKinds stepKinds) = true := by
+  decide +kernel
+
+/-- … and is accepted by the model of the real fail-fast checkers -/
+theorem bodies_accepted : bodies.all (acceptsBody preTable eqKinds stepKinds) = true := by
+  decide +kernel
+
+/-- every grid entry is `0` (rejected by the scheme) or names a body of the table -/
+theorem entries_in_range : schemeTable.all (runsInRange bodies.length) = true := by
+  decide +kernel
+
+/-- every scheme's table has exactly one entry per point of its grid -/
+theorem grid_full : schemeTable.all (fun g => g.bodyOf.length == gridSize g) = true := by
+  decide +kernel
+
+/-- the only combinations a scheme itself refuses are MAGMA2's "the chosen
+smoothing-length procedure needs its parameter" -/
+theorem rejections_only_magma2 :
+    schemeTable.all (fun g => g.name == "MAGMA2Scheme" || !(g.runs.any (fun r => r.2 == 0)))
+      = true := by
+  decide +kernel
+
+/-- the scheme classes the table covers -/
+theorem schemes_covered :
+    schemeTable.map (·.name) =
+      ["WCSPHScheme", "TVFScheme", "AdamiHuAdamsScheme", "GasDScheme", "GSPHScheme",
+       "ADKEScheme", "GTVFScheme", "EDACScheme", "CRKSPHScheme", "PCISPHScheme",
+       "IISPHScheme", "ISPHScheme", "SISPHScheme", "MAGMA2Scheme", "TSPHScheme",
+       "PSPHScheme", "SchemeChooser"] := by
+  decide +kernel
+
+theorem bodyOf_length {g : SchemeGrid} (hg : g ∈ schemeTable) : g.bodyOf.length = gridSize g := by
+  have h := grid_full
+  simp only [List.all_eq_true, beq_iff_eq] at h
+  exact h g hg
+
+/-! ## the property -/
+
+/-- **C12, completeness.**  For every scheme of the table and every point of
+its option grid (options × dim × solids × clean), the scheme either rejects
+the combination itself or, after `configure_solver` and `setup_properties`,
+every equation of `get_equations` and every integrator stepper references
+only properties and constants its arrays have. -/
+theorem all_configs_complete :
+    ∀ g ∈ schemeTable, ∀ i, i < gridSize g →
+      PointOk preTable eqKinds stepKinds bodies g i := by
+  intro g hg i hi
+  have hr := entries_in_range
+  simp only [List.all_eq_true] at hr
+  rw [← bodyOf_length hg] at hi
+  obtain ⟨c, hc, h⟩ := point_of_runs _ bodies g bodies_checked (hr g hg) i hi
+  refine ⟨c, hc, ?_⟩
+  rcases h with h0 | ⟨b, hb, hchk⟩
+  · left; exact h0
+  · right; exact ⟨b, hb, complete_of_check _ _ _ b hchk⟩
+
+/-- the same, indexed by the option values themselves -/
+theorem all_option_combinations_complete :
+    ∀ g ∈ schemeTable, ∀ ds, ValidDigits (radices g) ds →
+      PointOk preTable eqKinds stepKinds bodies g (flatIndex (radices g) ds 0) :=
+  fun g hg ds h => all_configs_complete g hg _ (flatIndex_lt g ds h)
+
+/-- **C12, acceptance.**  For every grid point the real set-up checks
+(`check_equation_array_properties` for every equation, the stepper checks of
+the integrator helper) raise nothing. -/
+theorem all_configs_accepted :
+    ∀ g ∈ schemeTable, ∀ i, i < gridSize g →
+      PointAccepted preTable eqKinds stepKinds bodies g i := by
+  intro g hg i hi
+  have hr := entries_in_range
+  simp only [List.all_eq_true] at hr
+  rw [← bodyOf_length hg] at hi
+  exact point_of_runs _ bodies g bodies_accepted (hr g hg) i hi
+
+/-! ## non-vacuity -/
+
+/-- the table is not empty and its bodies are not trivial -/
+example : ∃ g ∈ schemeTable, g.name = "WCSPHScheme" ∧ 1000 < gridSize g := by
+  refine ⟨gridWCSPHScheme, by simp [schemeTable], by decide +kernel, by decide +kernel⟩
+
+example : ∃ b ∈ bodies, 5 ≤ b.eqs.length ∧ 2 ≤ b.arrays.length ∧ 1 ≤ b.steppers.length := by
+  decide +kernel
+
+/-- the check discriminates: strip every property from the arrays of the first
+body and it fails -/
+example : (bodies.head?.map (fun b =>
+    checkBody preTable eqKinds stepKinds { b with arrays := b.arrays.map (fun a => (a.1, 0)) }))
+    = some false := by
+  decide +kernel
+
+/-- a legal multi-index -/
+example : ValidDigits (radices gridTVFScheme) [2, 1, 0, 1, 1] := by
+  simp [radices, gridTVFScheme, ValidDigits]
+
+end PysphVerif.C12
